@@ -69,3 +69,27 @@ Example C04_example :
   shape_of (fetch_from_archive (create_arcs [(1, 4); (2, 8)]) (-1) 1000 1000 1002) = Some (SShape 1001 1002 1 1) /\
   shape_spec [(1, 4); (2, 8)] (-1) 1000 1000 1002 = SShape 1001 1002 1 1.
 Proof. vm_compute. split; reflexivity. Qed.
+
+(** ** the calls that read the clock: [Whisper.Fetch] is the best-archive fetch at the instant the
+    library's clock shows, and a [now] argument of 0 stands for that instant (exercised with the clock
+    variable replaced: operations [setclock], [wfetch]) *)
+Theorem C04_fetch_reads_the_clock clock h from until :
+  clock <> 0 -> w_fetch clock h from until = fetch_from_archive (hd_arcs h) ArchiveIDBest from until clock.
+Proof. intros H. unfold w_fetch, h_fetch_clock, h_fetch, resolve_now. cbn. reflexivity. Qed.
+Print Assumptions C04_fetch_reads_the_clock.
+
+Theorem C04_zero_now_is_the_clock clock h id from until now :
+  h_fetch_clock clock h id from until now = fetch_from_archive (hd_arcs h) id from until (if now =? 0 then clock else now).
+Proof. reflexivity. Qed.
+Print Assumptions C04_zero_now_is_the_clock.
+
+Theorem C04_clock_fetch_shape clock h from until :
+  hd_arcs h <> [] -> Forall wf_arc (hd_arcs h) ->
+  Forall (fun a => period a <= clock /\ clock + 2 * a_step a < TMAX) (hd_arcs h) ->
+  0 <= from < 2^32 -> 0 <= until < 2^32 ->
+  shape_of (w_fetch clock h from until) = Some (shape_spec (layout_of (hd_arcs h)) ArchiveIDBest from until clock).
+Proof.
+  intros Hne Hwf Hclk Hf Hu. unfold w_fetch, h_fetch_clock, h_fetch, resolve_now. cbn [Z.eqb].
+  exact (fetch_shape (hd_arcs h) ArchiveIDBest from until clock Hne Hwf Hclk Hf Hu).
+Qed.
+Print Assumptions C04_clock_fetch_shape.
